@@ -270,6 +270,10 @@ func (q *queryStmtParser) visitFieldExpr(ctx *grammar.FieldExprContext) {
 	switch {
 	case ctx.Star() != nil:
 		q.allFields = true
+	case ctx.DurationLit() != nil:
+		// the grammar admits a duration here but there is no expression node for it: the statement would
+		// carry a nil child and could not be sent to the storage nodes
+		q.err = fmt.Errorf("duration literal[%s] is not a field expression", ctx.GetText())
 	case ctx.ExprFunc() != nil:
 		q.exprStack.Push(&stmt.CallExpr{})
 	case ctx.T_OPEN_P() != nil:
